@@ -304,12 +304,23 @@ def run(ck):
                 if ("NATIVE_INT_MAX_SIZE" in b_ and op_ in ("<=", "<")) or ("NATIVE_INT_MAX_SIZE" in a_ and op_ in (">=", ">")):
                     guards.append("%s %s %s" % (a_, op_, b_))
         # the guarded width must be that of an operand (arg.size / expr.args[k].size), or expr.size when operand widths equal the result width
-        branch = None
-        ch, p = c, getattr(c, "_parent", None)
-        while p is not None and p is not fn and branch is None:
-            if isinstance(p, ast.If) and ("expr.op" in norm(p.test) or "is_associative" in norm(p.test)) and any(_contains(s_, ch) for s_ in p.body):
-                branch = norm(p.test)[:50]
-            ch, p = p, getattr(p, "_parent", None)
+        # the branch is named by what is KNOWN about the operator at the call (must-facts), not by the enclosing statement: the same name
+        # for an elif chain, a sequence of guards, or a negated guard followed by the code
+        fl = set()
+        for nd_ in r5cfg.node_containing(c):
+            for ft in r5facts.get(nd_.id, frozenset()):
+                if ft[0] == "cmp" and ft[1] == "expr.op" and ft[2] in ("==", "in"):
+                    fl.add("expr.op %s %s" % (ft[2], ft[3]))
+        if not fl:
+            for nd_ in r5cfg.node_containing(c):
+                for ft in r5facts.get(nd_.id, frozenset()):
+                    if ft[0] == "true" and "is_associative" in ft[1]:
+                        fl.add(ft[1])
+                    if ft[0] == "cmp" and "len(expr.args)" in (ft[1], ft[3]) and ft[2] in ("<=", "<", "=="):
+                        fl.add("%s %s %s" % (ft[1], ft[2], ft[3]))
+            if not any("is_associative" in x for x in fl):
+                fl = set()
+        branch = " and ".join(sorted(fl))[:60] if fl else None
         n5 += 1
         ck.ob("R5", "from_ExprOp:_size2mask(%s)@%s" % (arg, branch), bool(guards), cpy.where(c),
               "the 64-bit-only mask helper is applied to `%s` in the branch `%s` without a width test: an operand wider than 64 bits raises "
